@@ -16,7 +16,9 @@ import time
 VERIF = os.path.dirname(os.path.dirname(os.path.abspath(__file__)))
 REPO = os.environ.get('VERIF_REPO', '/repo')
 DRIVER = os.path.join(VERIF, 'driver', 'target', 'release', 'mirfacts')
-CACHE = os.path.join(VERIF, '.cache')
+SCRATCH_RUN = os.path.realpath(REPO) != '/repo'
+# scratch runs (mutants, seeded changes) keep their facts apart so that concurrent runs on different trees never purge each other
+CACHE = os.path.join(VERIF, '.cache') if not SCRATCH_RUN else os.path.join(VERIF, '.cache', 'scratch')
 
 CONFIGS = {
     'default': [],
@@ -100,10 +102,13 @@ def build_facts(cfg):
         if os.path.exists(tmp_out):
             os.remove(tmp_out)
     # keep the cache small: drop everything that does not carry the current key
+    now = time.time()
     for f in os.listdir(CACHE):
+        fp = os.path.join(CACHE, f)
         if not f.startswith(key) and (f.endswith('.json') or f.endswith('.pickle')):
             try:
-                os.remove(os.path.join(CACHE, f))
+                if not SCRATCH_RUN or now - os.path.getmtime(fp) > 3600:
+                    os.remove(fp)
             except OSError:
                 pass
     return out, False
